@@ -12,8 +12,8 @@ Handlers == Code(56, <<245, 219, 254, 241, 251, 201>>) \o <<<<33023, 0>>, <<3302
 
 \* EI ; loop: IN A,(0xFE) ; AND 0x1F ; JR Z,+1 ; INC D ; IN E,(C) ; JR loop          (IN values steer a branch)
 P1 == Code(32768, <<251, 219, 254, 230, 31, 40, 1, 20, 237, 88, 24, 245>>)
-\* EI ; HALT ; INC A ; JR -4
-P2 == Code(32768, <<251, 118, 60, 24, 252>>)
+\* EI ; HALT ; INC A ; SLA A ; JR -6
+P2 == Code(32768, <<251, 118, 60, 203, 39, 24, 250>>)
 \* IM 2 ; EI ; HALT ; DJNZ HALT ; JR start
 P3 == Code(32768, <<237, 94, 251, 118, 16, 253, 24, 248>>)
 \* EI ; LD A,I ; DD DD NOP ; LD A,R ; LD B,2 ; INIR ; PUSH AF ; POP DE ; JR start     (prefix chain, LD A,I/R, block IN)
